@@ -186,5 +186,46 @@ theorem parseCfg_print (c : Config) (hne : c.streamers ≠ []) (r : List Tok) :
     simp only [List.length_cons, List.length_append]
     omega
 
+/-! ### fix FC19-D16 -/
+
+theorem parseStreamersThen_print (sys : SysType) (l : List Streamer) (hne : l ≠ []) (r : List Tok) :
+    parseStreamersThen sys (printStreamers l ++ Tok.gt :: r) = some ({ streamers := l, sys := sys }, r) := by
+  unfold parseStreamersThen
+  rw [parseStreamers_print (Tok.gt :: r) (by intro r' h; cases h) l _ hne]
+  have := printStreamers_length l
+  simp only [List.length_append, List.length_cons]
+  omega
+
+theorem printStreamers_head (s : Streamer) (l : List Streamer) :
+    ∃ rest, printStreamers (s :: l) = Tok.ident (stypeName s.ty) :: rest := by
+  cases l with
+  | nil => exact ⟨_, by simp only [printStreamers, printStreamer, List.cons_append, List.append_assoc]; rfl⟩
+  | cons s2 l => exact ⟨_, by simp only [printStreamers, printStreamer, List.cons_append, List.append_assoc]; rfl⟩
+
+theorem stypeName_ne_system (t : SType) : stypeName t ≠ "system" := by cases t <;> decide
+
+theorem parseCfgFixed_print (c : Config) (hne : c.streamers ≠ []) (r : List Tok) :
+    parseCfgFixed (printCfgFixed c ++ r) = some (c, r) := by
+  obtain ⟨ss, sys⟩ := c
+  simp only at hne
+  cases sys with
+  | xdma =>
+    simp only [printCfgFixed, printSysPrefix, sysName, List.cons_append, List.nil_append, List.append_assoc,
+      parseCfgFixed, if_true]
+    rw [show sysOf "xdma" = some SysType.xdma by decide]
+    exact parseStreamersThen_print .xdma ss hne r
+  | regular =>
+    cases ss with
+    | nil => exact absurd rfl hne
+    | cons s l =>
+      obtain ⟨rest, hrest⟩ := printStreamers_head s l
+      have key := parseStreamersThen_print .regular (s :: l) hne r
+      simp only [printCfgFixed, printSysPrefix, List.cons_append, List.nil_append, List.append_assoc]
+      rw [hrest] at key ⊢
+      simp only [List.cons_append] at key ⊢
+      unfold parseCfgFixed
+      simp only [stypeName_ne_system, if_false]
+      exact key
+
 end Syntax
 end SnaxVerif
